@@ -40,10 +40,43 @@ func runC21(c *Ctx) {
 		"ReadOptionalASN1", "SkipOptionalASN1", "ReadOptionalASN1Integer", "ReadOptionalASN1OctetString", "ReadOptionalASN1Boolean", "readASN1", "ReadASN1UTCTime"} {
 		consuming[expand(cbFn(n))] = true
 	}
-	// every pointer-receiver method of String is classified
+	// every pointer-receiver method of String is classified: a method consumes if it stores through its receiver
+	// or calls a consuming method on it (least fixpoint); the listed names must all come out consuming, and a
+	// method that is not listed must be derived non-consuming (a pure look-ahead helper) or it is reported
+	derived := map[string]bool{}
+	var methods []*ssa.Function
 	for _, fn := range w.FuncsOfPkg(pkCB) {
-		if fn.Signature.Recv() != nil && strings.HasPrefix(FuncName(fn), "(*"+expand(pkCB)+".String).") && fn.Parent() == nil {
-			c.Check(consuming[FuncName(fn)], "R-STATE", FuncName(fn), "pointer-receiver String method is in the consuming-call table", w.Pos(fn.Pos()), "")
+		if fn.Signature.Recv() != nil && strings.HasPrefix(FuncName(fn), "(*"+expand(pkCB)+".String).") && fn.Parent() == nil && len(fn.Params) > 0 {
+			methods = append(methods, fn)
+		}
+	}
+	for changed := true; changed; {
+		changed = false
+		for _, fn := range methods {
+			if derived[FuncName(fn)] {
+				continue
+			}
+			recv := fn.Params[0]
+			for _, b := range fn.Blocks {
+				for _, in := range b.Instrs {
+					if st, ok := in.(*ssa.Store); ok && st.Addr == ssa.Value(recv) {
+						derived[FuncName(fn)] = true
+					}
+					if cc := callCommon(in); cc != nil && len(cc.Args) > 0 && cc.Args[0] == ssa.Value(recv) && derived[calleeName(cc)] {
+						derived[FuncName(fn)] = true
+					}
+				}
+			}
+			if derived[FuncName(fn)] {
+				changed = true
+			}
+		}
+	}
+	for _, fn := range methods {
+		n := FuncName(fn)
+		c.Check(!consuming[n] || derived[n], "R-STATE", n, "pointer-receiver String method is classified (every listed consuming method can advance its receiver; unlisted ones are classified by derivation)", w.Pos(fn.Pos()), fmt.Sprintf("listed=%v derived=%v", consuming[n], derived[n]))
+		if derived[n] {
+			consuming[n] = true
 		}
 	}
 	isConsumeOnS := func(in ssa.Instruction, _ resolver) bool {
